@@ -706,9 +706,10 @@ package psatoken
 //@   modifies nothing
 
 //@ func encoding.GetProfileJSONTag
-//@   trusted reflection walk over the claims struct; its two built-in results are ground obligations, its general behaviour is audited (bounded)
-//@   ensures[ok] (ret1 == nil) == jsonTagOK(dynType(iface))
-//@   ensures[tag] ret1 == nil ==> ret0 == jsonTagOf(dynType(iface))
+//@   property C07 C16 C12 C05
+//@   requires iface != nil
+//@   assumes[ok] (ret1 == nil) == jsonTagOK(dynType(iface)) :: the walk reads struct tags only, so its result is a function of the dynamic type; the two built-in results are ground obligations (json-tag-p1/p2), the walk itself is verified with reflect opaque (A-REFLECT-TOTAL)
+//@   assumes[tag] ret1 == nil ==> ret0 == jsonTagOf(dynType(iface)) :: as above
 //@   modifies nothing
 
 //@ ground[C07,C16,C12] json-tag-p1 : func() bool { t, err := encoding.GetProfileJSONTag(&P1Claims{}); return err == nil && t == "psa-profile" }()
